@@ -2,20 +2,28 @@
 Model of request-body validation (property C06).
 
 Code modelled, branch by branch:
-  * openapi3/content.go            `Content.Get`                         → `contentGet`
+  * openapi3/content.go            `Content.Get`                         → `contentGet` (= `runSteps contentGetProgram`,
+                                                                            the step program regenerated from the source)
   * openapi3filter/internal.go     `parseMediaType`                      → `base`
   * openapi3filter/req_resp_decoder.go
         `init` (decoder registry)                                        → `registry` (tied to the source by the
                                                                             generated table `Gen.bodyDecoders`)
-        `decodeBody`, `JSONBodyDecoder`, `PlainBodyDecoder`, `FileBodyDecoder` → `decodeBody`, `decodeSimple`
+        `decodeBody`, `JSONBodyDecoder`, `PlainBodyDecoder`, `FileBodyDecoder`, `YamlBodyDecoder`, `CsvBodyDecoder`
+                                                                         → `decodeBody`, `decodeSimple`
         `UrlencodedBodyDecoder`, `decodeSchemaConstructs`, `decodeProperty`, `decodeValue`,
         `urlValuesDecoder.DecodePrimitive/DecodeArray/parseArray`, `parsePrimitive(Case)` → `decodeForm` …
         `MultipartBodyDecoder`                                           → `decodeMultipart`
-  * openapi3filter/validate_request.go `ValidateRequestBody`             → `validateRequestBody`
+  * openapi3filter/validate_request.go `ValidateRequestBody`             → `validateRequestBody` (defaults skipped) and
+        `validateRequestBodyD` (with the option SkipSettingDefaults: `DefaultsSet`, then `encodeBody` when a default
+        was set; openapi3filter/req_resp_encoder.go `bodyEncoders` → `hasEncoder`, tied to the table `Gen.bodyEncoders`)
   * openapi3/schema.go `visitJSON` / `visitJSONObject` … with `VisitAsRequest()` on the schema fragment `RS`
         (type, nullable, readOnly, writeOnly, minLength, maximum, properties, required,
-         additionalProperties: true|false, items, not, oneOf, anyOf, allOf) → `visit` = `visitV` (own keywords,
-         recursion over the value) over `comp` (visitNotOperation / visitXOFOperations, recursion over the schema)
+         additionalProperties: true|false, items, not, oneOf, anyOf, allOf, minProperties, maxProperties, default)
+         → `visit` = `visitV` (own keywords, recursion over the value) over `comp` (visitNotOperation /
+         visitXOFOperations, recursion over the schema): the validator WITHOUT `DefaultsSet`;
+         → `visD` (recursion over the schema, the value is threaded): the validator WITH `DefaultsSet` — injection
+         loop of `visitJSONObject` (`inject`, the `reqRO` guard `dfltFor`), deep copy per oneOf/anyOf member and
+         re-run of the matched one, allOf members in sequence; `firesD`: whether `defaultsSet` is called
   * property declarations inside allOf/anyOf/oneOf members of a form schema (`decodeSchemaConstructs`)
         → `flatDecls`, `mergeKV`; composition keywords inside a property schema (`decodeValue`) → `decodePropC`
   * `MultipartBodyDecoder` against schemas with `allOf`                    → `partDecl`, `assemblyProps`
@@ -23,14 +31,16 @@ Code modelled, branch by branch:
 Specification side (written from the property text, not from the control flow): `candidates`/`firstSome`
 (precedence list), `SatReq` (+ executable `satReqB`), `specFormProp(s)`/`encodeForm` (what form fields encode,
 what a client writes), `specDecode`, `Accept` (+ executable `acceptB`).
-Exclusion class (known finding): `formUnparsable` (FormFieldUnparsable, #20), lifted to whole cases by
-`exclFormUnparsable`. (The former classes ReadOnlyNull and FormNullForMissing were repaired in the repository:
+Exclusion classes (known findings): `formUnparsable` (FormFieldUnparsable, #20), lifted to whole cases by
+`exclFormUnparsable`; `exclNoBodyEncoder` (NoBodyEncoder, F-C06-4). Where a default decides the verdict
+(`defaultsNeutral` false) the request-side reading of the property text does not apply (`caseNeutral`). (The former classes ReadOnlyNull and FormNullForMissing were repaired in the repository:
 e80060c, 2621864; the model follows the repaired code.)
 
 What is abstracted (inputs of the model, produced by the trusted parsers in the correspondence run):
   `BodyIn.json`  – what `encoding/json` makes of the whole body text (none = not exactly one JSON value),
   `BodyIn.form`  – what `net/url.ParseQuery` makes of it,
   `BodyIn.parts` – what `mime`/`mime/multipart` make of it under the request's Content-Type header,
+  `BodyIn.yaml`, `BodyIn.csv` – what yaml3 / `encoding/csv` make of it (likewise per multipart part),
   number texts are modelled on the decimal subset of `strconv` ([+-]digits, [+-]digits.5) – generators stay inside.
 -/
 namespace KinModel.Body
